@@ -13,7 +13,8 @@ FLeafOps == {"LIT","WILD","REGEXP"}
 Ser(leaf) == CASE leaf.ty = "str" -> "'" \o leaf.v \o "'"
                [] leaf.ty = "col" -> "\"" \o leaf.v \o "\""
                [] OTHER -> leaf.v
-Ret(lab, k) == "<" \o lab \o ":" \o ToString(k) \o ">"
+\* (the label BLANK stands for a function that renders its node to the empty text: a driver that drops the operator)
+Ret(lab, k) == IF lab = "BLANK" THEN "" ELSE "<" \o lab \o ":" \o ToString(k) \o ">"
 \* base.go:125/isSimple - a child that is not a plain term is wrapped in parentheses for these operators
 Wraps(op) == op \notin {"RANGE","NOT","LIST","IN","LIT","MUST","MUST_NOT","WILD","REGEXP"}
 Simple(T) == T.op \in FLeafOps
